@@ -279,6 +279,23 @@ func GenComposeWorkload(r *Rand) *Workload {
 	w.Languages = GenLanguages(r, 1, 3)
 	w.Converters = r.Bool()
 	w.APIRef = r.Chance(1, 3)
+	if sr := r.Side("plugin-factories"); sr.Chance(1, 2) {
+		// a factory on each plugin's Options builder: compose merges them into the composed
+		// builders, which live in the plugin's package but build an object of the core package
+		for _, p := range panels {
+			w.Files["cfg/veneers/a_factory_"+p+".yaml"] = fmt.Sprintf("language: all\npackage: %[1]s\nbuilders:\n  - add_factory:\n      by_object: Options\n      factory:\n        name: %[1]sPreset\n        arguments:\n          - name: preset\n            type: {kind: scalar, scalar: {scalar_kind: string}}\n        options:\n          - name: legend\n            parameters:\n              - argument:\n                  name: preset\n                  type: {kind: scalar, scalar: {scalar_kind: string}}\n", p)
+		}
+		w.APIRef = sr.Chance(2, 3)
+		if sr.Bool() {
+			have := false
+			for _, l := range w.Languages {
+				have = have || l.Name == "python"
+			}
+			if !have {
+				w.Languages = append(w.Languages, LangSpec{Name: "python", Flags: map[string]string{}})
+			}
+		}
+	}
 	w.Name = "compose:" + strings.Join(panels, "+") + " -> " + strings.Join(w.LangNames(), ",")
 	return w
 }
